@@ -228,6 +228,7 @@ def step (st : DState) (line : String) : DState × String :=
     (st, match (lexLine (stringOfHex dec) (stringOfHex thou) cs : Option (List (Tok Float))) with
       | some ts => "ok\t" ++ " ".intercalate (ts.map encTok)
       | none => "none")
+  | ["lower", h] => (st, hexOfString (lowerStr (stringOfHex h)))
   | ["constdate", lang, word] =>
     -- the date a constant word (`today`, …) denotes in that language at the current `now`
     (st, match (constantOf st.cfg lang (stringOfHex word)).bind (constDate st.now) with
